@@ -168,6 +168,7 @@ __strpdt_std(const char *str, char **ep)
 			/* let's make a DT_SEXY */
 			res.typ = DT_SEXY;
 			res.sxepoch = d.i;
+			sp = tmp;
 		}
 		goto out;
 	}
